@@ -36,14 +36,14 @@ def explore(res, rng, n):
         if len(freq) < 3:
             continue
         psd = [rng.choice([0.0, 0.5, 1.0, 2.0, 3.5]) for _ in freq]
-        thin = rng.choice([None, None, df, 2 * df, 3 * df])
+        thin = rng.choice([None, None, df, 2 * df, 3 * df, 0.8 * df, 0.5 * df, 0.3 * df])      # incl. bandwidths below the grid spacing
         rvals = [rng.uniform(-2, 2) for _ in freq]
         case = {'fs': fs, 'time': T, 'freq': freq, 'psd': psd, 'freqBandwidth': thin, 'randn': rvals}
         with mock.patch.object(np.random, 'randn', side_effect=lambda k: np.array(rvals[:k])):
             ts, amps = lsg.spectralRepresentation(fs, T, freq, psd, freqBandwidth=thin, randomSeed=1)
         res.evaluations += 1
         res.nontrivial.add(json.dumps(case))
-        res.stat('thinned' if thin and thin > df else 'all_components')
+        res.stat('thinned' if thin and thin > df else ('bandwidth_below_spacing' if thin and thin < df else 'all_components'))
         if i < 2:
             res.samples.append(case)
         bw = df if (thin is None or thin < freq[1] - freq[0]) else thin
@@ -71,7 +71,7 @@ def explore(res, rng, n):
         reqs.append(f'synth {gen.bits(fs)} {gen.bits(bw)} {nxt} {nn} {comps}')
         meta.append((case, [float(a) for a in amps]))
         # ---- estimation on an arbitrary series
-        L = rng.choice([8, 9, 16, 31, 64])
+        L = rng.choice([8, 9, 16, 31, 64]) if i % 6 else rng.choice([4099, 5003, 8198])      # long records with a large prime factor
         x = np.array([rng.gauss(0, 1) + rng.choice([0.0, 3.0]) for _ in range(L)])
         fs2 = rng.choice([1.0, 10.0, 128.0])
         f1, p1 = lsm.periodogramSpectrum(x.tolist(), fs2)
@@ -109,7 +109,7 @@ def explore(res, rng, n):
 def run(tier, seed):
     res = core.Result(PID, tier, seed)
     res.rule = ('random equally spaced spectra whose components complete whole periods below Nyquist, with and without bandwidth thinning, '
-                'scripted phases; random real series of length 8-64 for the estimators; distinct by case')
+                'scripted phases; random real series of length 8-64 and 4099-8198 (large prime factors) for the estimators; distinct by case')
     core.prove(res, PID, MODULES, clean=(tier == 'thorough'))
     n = 25 if tier == 'quick' else 1500
     explore(res, random.Random(seed), n)
